@@ -34,7 +34,7 @@ fn info(tier: Tier) -> CheckInfo {
             "the same-IP admission rule is the one stated in C12: per IP at most one insecure node and no two secure nodes sharing a 21-bit prefix; a candidate is refused iff an already kept node on its IP is insecure or shares its prefix".into(),
         ],
     };
-    ci.rule.push_str(" Added: tables with members not heard from for 16 minutes; the node lists a Server puts in find_node / get_peers / get / get_signed_peers answers for main tables of 0/5/19/20/21/30 nodes x signed-peers tables of 0/1/6/19/20/25 nodes (inside or partly outside the main table) x 4 targets: at most 20, distinct, as full as the tables allow, closest first.");
+    ci.rule.push_str(" Added: tables with members not heard from for 16 minutes; the node lists a Server puts in find_node / get_peers / get / get_signed_peers answers for main tables of 0/5/19/20/21/30 nodes x signed-peers tables of 0/1/6/19/20/25 nodes (inside or partly outside the main table) x 4 targets: at most 20, distinct, as full as the tables allow, closest first; the same servers once they hold an immutable value, a mutable item (asked without seq, with an older and with the stored seq), a peer and a signed peer for the target: the nodes of a hit are the nodes of a miss.");
     ci
 }
 
@@ -590,6 +590,71 @@ fn check_server_responses(out: &mut Partial) {
                         }
                     }
                 }
+                // the same server once it HOLDS data for the targets asked about: an immutable
+                // value, a mutable item (asked for without seq, with an older and with the stored
+                // seq), a peer and a signed peer. The nodes of a hit are the nodes of a miss.
+                let ask = |server: &mut Server, bytes: &[u8]| -> Option<Krpc> {
+                    let m = decode(bytes).expect("harness query decodes");
+                    let MessageType::Request(r) = m.message_type else { unreachable!() };
+                    let reply = server.handle_request(&main, &signed, from, r)?;
+                    let w = WireMessage { transaction_id: 1, version: None, requester_ip: None, message_type: reply, read_only: false };
+                    Krpc::parse(&encode(&w).expect("encode"))
+                };
+                let got = quiet(|| {
+                    catch(|| {
+                        let imm: &[u8] = b"c11 stored immutable value";
+                        let t_imm = krpc::immutable_target(imm);
+                        let sk = krpc::signing_key(0x11);
+                        let pk = sk.verifying_key().to_bytes();
+                        let t_mut = krpc::mutable_target(&pk, None);
+                        let ih: Id20 = [0x3c; 20];
+                        let tid = [0u8, 0, 0, 1];
+                        let mut res: Vec<(&'static str, Id20, bool, bool, Vec<(Id20, SocketAddrV4)>)> = vec![];
+                        let tok = |k: &Krpc| k.res_bytes("token").map(|t| t.to_vec()).unwrap_or_default();
+                        let token = tok(&ask(&mut server, &krpc::q_get(&tid, &rid, &t_imm, None)).expect("reply"));
+                        let stored_imm = ask(&mut server, &krpc::q_put_immutable(&tid, &rid, &t_imm, &token, imm)).map(|k| !k.is_error()).unwrap_or(false);
+                        let token = tok(&ask(&mut server, &krpc::q_get(&tid, &rid, &t_mut, None)).expect("reply"));
+                        let sig = krpc::sign_mutable(&sk, 7, b"c11 item", None);
+                        let stored_mut = ask(&mut server, &krpc::q_put_mutable(&tid, &rid, &t_mut, &token, b"c11 item", &pk, &sig, 7, None, None)).map(|k| !k.is_error()).unwrap_or(false);
+                        let token = tok(&ask(&mut server, &krpc::q_get_peers(&tid, &rid, &ih, false)).expect("reply"));
+                        let stored_peer = ask(&mut server, &krpc::q_announce_peer(&tid, &rid, &ih, &token, 5555, None)).map(|k| !k.is_error()).unwrap_or(false);
+                        let ts = crate::sim::UNIX_BASE_MICROS + crate::sim::T0 / 1000;
+                        let asig = krpc::sign_announce(&sk, &ih, ts);
+                        let stored_signed = ask(&mut server, &krpc::q_announce_signed_peer(&tid, &rid, &ih, &token, &pk, &asig, ts)).map(|k| !k.is_error()).unwrap_or(false);
+                        for (name, t, bytes, want_signed_table, stored, field) in [
+                            ("get (immutable value held)", t_imm, krpc::q_get(&tid, &rid, &t_imm, None), false, stored_imm, "v"),
+                            ("get (mutable item held)", t_mut, krpc::q_get(&tid, &rid, &t_mut, None), false, stored_mut, "v"),
+                            ("get (mutable item held, seq below the stored one)", t_mut, krpc::q_get(&tid, &rid, &t_mut, Some(3)), false, stored_mut, "v"),
+                            ("get (mutable item held, seq = the stored one)", t_mut, krpc::q_get(&tid, &rid, &t_mut, Some(7)), false, stored_mut, "seq"),
+                            ("get_peers (peers held)", ih, krpc::q_get_peers(&tid, &rid, &ih, false), false, stored_peer, "values"),
+                            ("get_signed_peers (signed peers held)", ih, krpc::q_get_peers(&tid, &rid, &ih, true), true, stored_signed, "peers"),
+                        ] {
+                            let k = ask(&mut server, &bytes).expect("reply");
+                            let hit = stored && k.res(field).is_some();
+                            res.push((name, t, want_signed_table, hit, k.res_nodes().unwrap_or_default()));
+                        }
+                        res
+                    })
+                });
+                match got {
+                    Err(p) => out.violation("server-response/panic/with-data", format!("answering a server that holds data panicked: {p}"), json!({"kind": "server-data", "a": a, "b": b, "offset": offset})),
+                    Ok(res) => {
+                        for (name, target, want_signed_table, hit, got) in res {
+                            out.add("evaluations", 1);
+                            out.add("server_responses_with_data", 1);
+                            out.add("server_hits", hit as u64);
+                            let want = if want_signed_table { brute(&s_members, &target) } else { brute(&m_members, &target) };
+                            if got != want {
+                                let short = name.split(' ').next().unwrap_or("get");
+                                out.violation(
+                                    format!("server-response/not-the-closest/{short}/data-held"),
+                                    format!("{name} answered by a server whose main table has {} nodes and whose signed-peers table has {}: the answer's {} nodes are not the first 20 of the {} table", m_members.len(), s_members.len(), got.len(), if want_signed_table { "signed-peers" } else { "main" }),
+                                    json!({"kind": "server-data", "a": a, "b": b, "offset": offset}),
+                                );
+                            }
+                        }
+                    }
+                }
             }
         }
     }
@@ -639,6 +704,7 @@ fn run(tier: Tier, _s: usize, _n: usize, _seed: u64) -> Partial {
     merged.sample(json!({"kind":"table","seq":[0,1],"own":hex(&owns[0]),"target":hex(&targets[2])}));
     let n = merged.count("evaluations");
     merged.witness("sequences were generated", n > 10_000);
+    merged.witness("servers answered with the data they hold", merged.count("server_hits") > 0);
     merged
 }
 
@@ -684,7 +750,7 @@ fn replay(v: &Value) -> Result<Option<Violation>, String> {
         }
         Some("take_until_secure") => check_truncation(&mut out),
         Some("stale") => check_table_with_stale_members(&mut out),
-        Some("server") => check_server_responses(&mut out),
+        Some("server") | Some("server-data") => check_server_responses(&mut out),
         _ => return Err("kind".into()),
     }
     Ok(out.violations.into_iter().next())
